@@ -265,4 +265,31 @@ example :
     r3.serveEnd.releaseAll.finished = [("a", .returned "pa"), ("b", .closed)] ∧ r3.serveEnd.releaseAll.live = [] ∧
       r3.serveEnd.releaseAll.pending = [] := by decide
 
+/-! ### replies nobody asked for
+
+A reply whose id has no slot, or whose slot is empty (a late answer to a call that gave up, an answer under an id
+that was never issued), is parked in a one-message slot: the read loop goes on, and so it still sees the connection
+end (`strayclose`, seeded change C09-r5 made the slots zero-message).  A *second* reply under the same id finds the
+slot full: that one does block the loop — the flood C15 sets aside. -/
+
+/-- **one stray reply never blocks the read loop** -/
+theorem stray_reply_never_blocks (r : Rpc) (id : Nat) (m : RpcReply) (hn : NodupIds r.pending)
+    (hfree : ∀ s ∈ r.pending, s.id = id → s.buf = none) : (r.deliverReply id m).isSome = true := by
+  obtain ⟨s1, ⟨s, hs, hid, _, hbuf⟩, _⟩ := pendingChan_spec r id false hn
+  have hnone : s.buf = none := by
+    rcases hbuf with hb | ⟨s0, hs0, hid0, hb0⟩
+    · exact hb
+    · rw [← hb0]; exact hfree s0 hs0 hid0
+  have hslot : (r.pendingChan id false).slot? id = some s := by
+    have := slot?_of_mem (r.pendingChan id false) s1 s hs
+    rw [hid] at this; exact this
+  unfold deliverReply
+  simp only [hslot, hnone]
+  rfl
+
+/-- the excluded flood, on the smallest state: two unsolicited replies under one id; the second finds the slot full -/
+theorem duplicate_stray_reply_blocks :
+    let r0 : Rpc := {}
+    ((r0.deliverReply 7 (.result "x")).bind (fun r1 => r1.deliverReply 7 (.result "y"))) = none := by decide
+
 end Vipnode.C14
